@@ -673,3 +673,87 @@ Proof.
            ++ cbn in Hj. inversion Hj; subst. rewrite Nat.add_0_r. exact Hf.
            ++ cbn in Hj. replace (k + S j)%nat with (S k + j)%nat by lia. apply (Hno j x Hj).
 Qed.
+
+(* ------------------------------------------------------------ where ForEach leaves the iterator *)
+Definition drop_st {E X} (r : option (list E * option Z * X)) : option (list E * option Z) :=
+  match r with Some (vs, o, _) => Some (vs, o) | None => None end.
+
+Lemma pforeach_loop_st_proj f : forall n k i, drop_st (pforeach_loop_st n f k i) = pforeach_loop n f k i.
+Proof.
+  induction n as [|n IH]; intros k i; [reflexivity|].
+  cbn [pforeach_loop_st pforeach_loop]. destruct (f k (kv i)) as [err|]; [reflexivity|].
+  destruct (pnext n i) as [[[|] i']|]; [|reflexivity|reflexivity].
+  rewrite <- IH. destruct (pforeach_loop_st n f (S k) i') as [[[vs o] j]|]; reflexivity.
+Qed.
+Lemma sforeach_loop_st_proj f : forall n k i, drop_st (sforeach_loop_st n f k i) = sforeach_loop n f k i.
+Proof.
+  induction n as [|n IH]; intros k i; [reflexivity|].
+  cbn [sforeach_loop_st sforeach_loop]. destruct (f k (svalue i)) as [err|]; [reflexivity|].
+  destruct (snext n i) as [[[|] i']|]; [|reflexivity|reflexivity].
+  rewrite <- IH. destruct (sforeach_loop_st n f (S k) i') as [[[vs o] j]|]; reflexivity.
+Qed.
+
+Lemma prun_foreach_st_proj f t n : drop_st (prun_foreach_st n f t) = prun_foreach n f t.
+Proof.
+  unfold prun_foreach_st, prun_foreach, pforeach. destruct (pbuild n 0 0 t) as [i|]; [|reflexivity].
+  destruct (is_pnil i); [reflexivity|apply pforeach_loop_st_proj].
+Qed.
+Lemma srun_foreach_st_proj f t n : drop_st (srun_foreach_st n f t) = srun_foreach n f t.
+Proof.
+  unfold srun_foreach_st, srun_foreach, sforeach. destruct (sbuild n 0 0 t) as [i|]; [|reflexivity].
+  destruct (is_snil i); [reflexivity|apply sforeach_loop_st_proj].
+Qed.
+
+(* after an error the iterator is the one whose element failed: it shows the last element visited, the callback's
+   answer on it is the error returned, and the callback was called once per element visited *)
+Lemma pforeach_loop_st_stops f : forall n k i vs err j,
+  pforeach_loop_st n f k i = Some (vs, Some err, j) ->
+  vs <> [] /\ kv j = last vs (0, 0) /\ f (k + (length vs - 1))%nat (kv j) = Some err.
+Proof.
+  induction n as [|n IH]; intros k i vs err j H; [discriminate|].
+  cbn [pforeach_loop_st] in H. destruct (f k (kv i)) as [e|] eqn:Hf.
+  - inversion H; subst. split; [discriminate|]. split; [reflexivity|]. cbn. rewrite Nat.add_0_r. exact Hf.
+  - destruct (pnext n i) as [[[|] i']|]; [|discriminate|discriminate].
+    destruct (pforeach_loop_st n f (S k) i') as [[[vs' o] j']|] eqn:Hr; [|discriminate].
+    inversion H; subst. destruct (IH _ _ _ _ _ Hr) as (Hne & Hl & Hf').
+    split; [discriminate|]. split.
+    + destruct vs' as [|a r]; [contradiction|]. exact Hl.
+    + destruct vs' as [|a r]; [contradiction|]. cbn [length] in *.
+      replace (k + (S (S (length r)) - 1))%nat with (S k + (S (length r) - 1))%nat by lia. exact Hf'.
+Qed.
+Lemma sforeach_loop_st_stops f : forall n k i vs err j,
+  sforeach_loop_st n f k i = Some (vs, Some err, j) ->
+  vs <> [] /\ svalue j = last vs 0 /\ f (k + (length vs - 1))%nat (svalue j) = Some err.
+Proof.
+  induction n as [|n IH]; intros k i vs err j H; [discriminate|].
+  cbn [sforeach_loop_st] in H. destruct (f k (svalue i)) as [e|] eqn:Hf.
+  - inversion H; subst. split; [discriminate|]. split; [reflexivity|]. cbn. rewrite Nat.add_0_r. exact Hf.
+  - destruct (snext n i) as [[[|] i']|]; [|discriminate|discriminate].
+    destruct (sforeach_loop_st n f (S k) i') as [[[vs' o] j']|] eqn:Hr; [|discriminate].
+    inversion H; subst. destruct (IH _ _ _ _ _ Hr) as (Hne & Hl & Hf').
+    split; [discriminate|]. split.
+    + destruct vs' as [|a r]; [contradiction|]. exact Hl.
+    + destruct vs' as [|a r]; [contradiction|]. cbn [length] in *.
+      replace (k + (S (S (length r)) - 1))%nat with (S k + (S (length r) - 1))%nat by lia. exact Hf'.
+Qed.
+
+Theorem pair_foreach_stops_at_error : forall (t : pe) (f : nat -> Z * Z -> option Z) n vs err j,
+  prun_foreach_st n f t = Some (vs, Some err, j) ->
+  prun_foreach n f t = Some (vs, Some err) /\
+  vs <> [] /\ kv j = last vs (0, 0) /\ f (length vs - 1)%nat (kv j) = Some err.
+Proof.
+  intros t f n vs err j H. split.
+  - rewrite <- prun_foreach_st_proj, H. reflexivity.
+  - unfold prun_foreach_st in H. destruct (pbuild n 0 0 t) as [i|]; [|discriminate].
+    destruct (is_pnil i); [discriminate|]. exact (pforeach_loop_st_stops f _ _ _ _ _ _ H).
+Qed.
+Theorem toseq_foreach_stops_at_error : forall (t : se) (f : nat -> Z -> option Z) n vs err j,
+  srun_foreach_st n f t = Some (vs, Some err, j) ->
+  srun_foreach n f t = Some (vs, Some err) /\
+  vs <> [] /\ svalue j = last vs 0 /\ f (length vs - 1)%nat (svalue j) = Some err.
+Proof.
+  intros t f n vs err j H. split.
+  - rewrite <- srun_foreach_st_proj, H. reflexivity.
+  - unfold srun_foreach_st in H. destruct (sbuild n 0 0 t) as [i|]; [|discriminate].
+    destruct (is_snil i); [discriminate|]. exact (sforeach_loop_st_stops f _ _ _ _ _ _ H).
+Qed.
